@@ -350,16 +350,24 @@ pub fn triggers(src: &str, root: &SyntaxNode) -> Vec<&'static str> {
                 add("R49");
             }
         }
-        // R50: a comment between the dot and the field name of a field access
+        // R50: comments between the dot and the field name of a field access: two or more of them (they are
+        // glued together by the first pass), or one behind a number (`5 ./**/h` -> `5./**/h`, a float). A single
+        // comment behind the dot of an ordinary target is laid out correctly on the pinned tree (seeded change
+        // C04-9 lived in the wider trigger).
         if f.node.kind() == K::FieldAccess {
             let mut after_dot = false;
+            let mut n = 0;
             for c in &kids {
                 match c.kind() {
                     K::Dot => after_dot = true,
                     K::Space => {}
-                    k if syn::is_comment(k) && after_dot => add("R50"),
+                    k if syn::is_comment(k) && after_dot => n += 1,
                     _ => after_dot = false,
                 }
+            }
+            let number_target = kids.first().is_some_and(|c| matches!(c.kind(), K::Int | K::Float));
+            if n >= 2 || (n == 1 && number_target) {
+                add("R50");
             }
         }
         for w in 0..kids.len() {
@@ -510,7 +518,15 @@ pub fn triggers(src: &str, root: &SyntaxNode) -> Vec<&'static str> {
                                 | K::Contextual | K::Params | K::Destructuring
                         )
                     );
-                    if !code_ctx {
+                    // ... or the parentheses end a piece of embedded code and text follows them directly
+                    // (`#context(1).`: the number fuses with the dot behind it whatever encloses the parentheses)
+                    let fused = flat.iter().any(|g| {
+                        g.start == f.end
+                            && g.node.children().len() == 0
+                            && matches!(g.node.kind(), K::Text | K::MathText | K::MathIdent)
+                            && g.node.text().chars().next().is_some_and(|ch| ch == '.' || ch.is_alphanumeric() || ch == '_')
+                    });
+                    if !code_ctx || fused {
                         add("R3");
                     }
                 }
@@ -586,7 +602,10 @@ pub fn triggers(src: &str, root: &SyntaxNode) -> Vec<&'static str> {
             // R60: a run of several blanks inside a heading / item body is collapsed to one; Typst
             // lexes the following text differently then (`=== ,  1...1`: `1...1` is text after two
             // blanks, `1` `...` `1` after one)
+            // (evaluated in the guard, which then falls through: a later arm handles Markup bodies as well, and an
+            // arm that matched here would hide every trigger of that arm -- it did, for an input with two blanks)
             K::Markup if {
+                let hit = {
                 let kids: Vec<&SyntaxNode> = f.node.children().collect();
                 let run = |x: &SyntaxNode| x.kind() == K::Space && !syn::has_nl(x.text()) && x.text().chars().count() >= 2;
                 let in_body = matches!(f.parent, Some(K::Heading | K::ListItem | K::EnumItem | K::TermItem));
@@ -595,7 +614,12 @@ pub fn triggers(src: &str, root: &SyntaxNode) -> Vec<&'static str> {
                     // ... or the text after the run carries a label, which then attaches to the merged text
                     || kids.windows(3).any(|w| run(w[0]) && w[1].kind() == K::Text && w[2].kind() == K::Label)
                     || kids.windows(4).any(|w| run(w[0]) && w[1].kind() == K::Text && w[2].kind() == K::Space && w[3].kind() == K::Label)
-            } => add("R60"),
+                };
+                if hit {
+                    add("R60");
+                }
+                false
+            } => {}
             // R61: redundant parentheses around an array on the left of `=`: removing them turns the
             // assignment into a destructuring assignment (`(((a),)) = b` -> `((a),) = b`)
             K::Binary
@@ -608,7 +632,12 @@ pub fn triggers(src: &str, root: &SyntaxNode) -> Vec<&'static str> {
             }
             // R3 (float form): a float written with a trailing dot before a field access on the next
             // line (`2.<nl>.at(0)`) is joined to `2..at(0)`
-            K::FieldAccess if f.node.children().next().is_some_and(|t| t.kind() == K::Float && t.text().ends_with('.')) => add("R3"),
+            K::FieldAccess if {
+                if f.node.children().next().is_some_and(|t| t.kind() == K::Float && t.text().ends_with('.')) {
+                    add("R3");
+                }
+                false // falls through to the later FieldAccess arm
+            } => {}
             // R63: parentheses around a string used as dictionary key are removed; the key then is a
             // literal key and two equal ones are a syntax error (`(("k"): 1, ("k"): 1)`)
             K::Keyed if f.node.children().next().is_some_and(|c| c.kind() == K::Parenthesized && syn::any_node(c, &mut |x| x.kind() == K::Str)) => add("R63"),
